@@ -180,6 +180,68 @@ theorem bai_chunks_complete (recs : List Bai.BaiRec) (h : SortedInput (recs.map 
     unfold Bai.chunks baiBuilt
     rw [h1']
 
+/-- the bin law for a query whose end is ANY `int` (repair C04-5 cuts it at 2^29) -/
+theorem bai_bin_law_any_end (r : Rec) (hok : RecOK r) (hp : r.placed = true) (hlt : r.start < r.stop)
+    (hbin : r.bin = Coord.binFor r.start r.stop)
+    (beg stop : Int) (hb : 0 ≤ beg) (hq : beg < stop)
+    (hov1 : r.start < stop) (hov2 : beg < r.stop) : r.bin ∈ Coord.overlappingBinsFor beg stop := by
+  obtain ⟨h0, _⟩ := hok.pos hp
+  have hv := hok.vstop
+  simp only [validPos, Bool.and_eq_true, decide_eq_true_eq] at hv
+  have := Hts.Props.C16.bai_bin_in_bins_any_end r.start.toNat r.stop.toNat beg.toNat stop
+    (by omega) (by omega) (by omega) (by omega) (by omega)
+  rw [hbin]
+  have e1 : ((r.start.toNat : Nat) : Int) = r.start := by omega
+  have e2 : ((r.stop.toNat : Nat) : Int) = r.stop := by omega
+  have e3 : ((beg.toNat : Nat) : Int) = beg := by omega
+  rw [e1, e2, e3] at this
+  exact this
+
+/-- `bai_chunks_complete` without the bound on the query's end: **every** query `[beg, stop)` with
+`0 ≤ beg < stop` (e.g. `stop = math.MaxInt` for "to the end of the reference"; before repair C04-5 such a
+query returned no chunks, theorem `Hts.Props.C16.unrepaired_bai_bins_huge_end_witness`) -/
+theorem bai_chunks_complete_any_end (recs : List Bai.BaiRec) (h : SortedInput (recs.map baiRec))
+    (r : Bai.BaiRec) (hr : r ∈ recs) (hp : (baiRec r).placed = true) (hne : r.pos < r.stop)
+    (beg stop : Int) (hb : 0 ≤ beg) (hq : beg < stop)
+    (hov1 : r.pos < stop) (hov2 : beg < r.stop)
+    (pre s : List Chunk → List Chunk) (hpre : EncLaw pre) (hs : EncLaw s) :
+    (∃ cs, Bai.chunks Coord.overlappingBinsFor s (baiBuilt recs) (baiRec r).rid beg stop = .ok cs ∧
+        coveredBy cs r.chunk) ∧
+    (∃ cs, Bai.chunks Coord.overlappingBinsFor s (mergeChunks pre (baiBuilt recs)) (baiRec r).rid beg stop = .ok cs ∧
+        coveredBy cs r.chunk) := by
+  have hmem : baiRec r ∈ recs.map baiRec := List.mem_map.2 ⟨r, hr, rfl⟩
+  have hbinEq : (baiRec r).bin = Coord.binFor (baiRec r).start (baiRec r).stop := by
+    show Coord.binFor r.pos (if r.stop = r.pos then r.stop + 1 else r.stop) = Coord.binFor r.pos r.stop
+    have : ¬ r.stop = r.pos := by omega
+    simp [this]
+  have hbin := bai_bin_law_any_end (baiRec r) (h.ok _ hmem) hp hne hbinEq beg stop hb hq hov1 hov2
+  obtain ⟨⟨cs, h1, h2⟩, ⟨cs', h1', h2'⟩⟩ := chunks_complete (recs.map baiRec) h (baiRec r) hmem hp hne beg stop
+    (Coord.overlappingBinsFor beg stop) hb hq hov2 hbin pre s hpre hs
+  constructor
+  · refine ⟨s cs, ?_, h2⟩
+    unfold Bai.chunks baiBuilt
+    rw [h1]
+  · refine ⟨s cs', ?_, h2'⟩
+    unfold Bai.chunks baiBuilt
+    rw [h1']
+
+/-- the last clause for BAI and every query end -/
+theorem bai_error_or_empty_means_no_overlap_any_end (recs : List Bai.BaiRec) (h : SortedInput (recs.map baiRec))
+    (rid beg stop : Int) (hb : 0 ≤ beg) (hq : beg < stop)
+    (s : List Chunk → List Chunk) (hs : EncLaw s)
+    (hans : (∃ e, Bai.chunks Coord.overlappingBinsFor s (baiBuilt recs) rid beg stop = .error e) ∨
+            Bai.chunks Coord.overlappingBinsFor s (baiBuilt recs) rid beg stop = .ok []) :
+    ¬ ∃ r, r ∈ recs ∧ (baiRec r).placed = true ∧ (baiRec r).rid = rid ∧ r.pos < r.stop ∧ r.pos < stop ∧
+      beg < r.stop := by
+  rintro ⟨r, hr, hp, hrid, hne, hov1, hov2⟩
+  obtain ⟨⟨cs, h1, c, hc, _⟩, _⟩ := bai_chunks_complete_any_end recs h r hr hp hne beg stop hb hq hov1 hov2 id s encLaw_id hs
+  rw [hrid] at h1
+  rcases hans with ⟨e, he⟩ | he
+  · rw [he] at h1; cases h1
+  · rw [he] at h1
+    cases h1
+    cases hc
+
 /-- the last clause of the property for BAI: an error or an empty answer implies that no added placed
 record overlaps the query -/
 theorem bai_error_or_empty_means_no_overlap (recs : List Bai.BaiRec) (h : SortedInput (recs.map baiRec))
@@ -293,6 +355,62 @@ theorem csi_chunks_complete (ms d : Nat) (hd : d ≤ 10) (hgeom : ms + 3 * d ≤
       (by show _ ∈ Coord.reg2bins beg stop (csiBuilt ms d recs).minShift (csiBuilt ms d recs).depth
           rw [hms, hdp]; exact hbin)
 
+/-- the bin law for ANY query over `int64`: negative begin, end beyond the range (repair C04-6) -/
+theorem csi_bin_law_any_query (ms d : Nat) (hd : d ≤ 10) (hgeom : ms + 3 * d ≤ 62) (r : CRec) (hok : CRecOK ms d r)
+    (hp : r.placed = true)
+    (beg stop : Int) (hq : beg < stop)
+    (hov1 : r.start < stop) (hov2 : beg < r.stop) :
+    Coord.reg2bin r.start r.stop ms d ∈ Coord.reg2bins beg stop ms d := by
+  obtain ⟨h0, hlt⟩ := hok.pos hp
+  have hv := hok.vstop
+  simp only [Csi.validPos, Csi.posBound_of_le (show ms + 3 * d ≤ 63 by omega), Bool.and_eq_true,
+    decide_eq_true_eq] at hv
+  have e : ((2 ^ (ms + 3 * d) : Nat) : Int) = (2 : Int) ^ (ms + 3 * d) := by
+    rw [Int.natCast_pow]; rfl
+  have := Hts.Props.C16.csi_bin_in_bins_any_query r.start.toNat r.stop.toNat beg stop ms d hd hgeom
+    (by omega) (by omega) hq (by omega) (by omega)
+  have e1 : ((r.start.toNat : Nat) : Int) = r.start := by omega
+  have e2 : ((r.stop.toNat : Nat) : Int) = r.stop := by omega
+  rw [e1, e2] at this
+  exact this
+
+/-- `csi_chunks_complete` for **every** query `[beg, stop)` with `beg < stop` over all of `int64` -/
+theorem csi_chunks_complete_any_query (ms d : Nat) (hd : d ≤ 10) (hgeom : ms + 3 * d ≤ 62) (recs : List CRec)
+    (h : CSortedInput ms d recs)
+    (r : CRec) (hr : r ∈ recs) (hp : r.placed = true)
+    (beg stop : Int) (hq : beg < stop)
+    (hov1 : r.start < stop) (hov2 : beg < r.stop)
+    (pre : List Chunk → List Chunk) (hpre : EncLaw pre) :
+    coveredBy (Csi.chunks Coord.reg2bins Local.adjacent (csiBuilt ms d recs) r.rid beg stop) r.chunk ∧
+    coveredBy (Csi.chunks Coord.reg2bins Local.adjacent (Csi.mergeChunks pre (csiBuilt ms d recs)) r.rid beg stop)
+      r.chunk := by
+  obtain ⟨_, hms, hdp, inv⟩ := csi_inv ms d recs h
+  have hmem : r ∈ (recs.filter (·.placed)).reverse := by
+    rw [List.mem_reverse, List.mem_filter]; exact ⟨hr, hp⟩
+  have hbin := csi_bin_law_any_query ms d hd hgeom r (h.ok r hr) hp beg stop hq hov1 hov2
+  constructor
+  · exact Csi.chunks_complete_cover Coord.reg2bins Local.adjacent Local.encLaw_adjacent _ _ _ inv.cover r hmem
+      beg stop (by rw [hms, hdp]; exact hbin)
+  · exact Csi.chunks_complete_cover Coord.reg2bins Local.adjacent Local.encLaw_adjacent _ _ _
+      (Csi.mergeChunks_cover pre hpre _ _ _ inv.cover) r hmem beg stop
+      (by show _ ∈ Coord.reg2bins beg stop (csiBuilt ms d recs).minShift (csiBuilt ms d recs).depth
+          rw [hms, hdp]; exact hbin)
+
+/-- **every call of `csi.Index.Chunks` returns**: for every built index and every `beg`, `stop` (empty,
+reversed, negative, beyond the range) the bin enumeration of the query terminates (before repair C04-6
+`Chunks(rid, 0, 0)` did not: `Hts.Props.C16.unrepaired_csi_reg2bins_empty_query_diverges_witness`), and an
+empty or reversed query lists no bin -/
+theorem csi_chunks_query_returns (ms d : Nat) (hd : d ≤ 10) (hgeom : ms + 3 * d ≤ 62) (beg stop : Int) :
+    Coord.reg2binsGo beg stop ms d = some (Coord.reg2bins beg stop ms d) ∧
+    (stop ≤ beg → Coord.reg2bins beg stop ms d = []) := by
+  refine ⟨Hts.Props.C16.csi_reg2bins_returns beg stop ms d hd hgeom, ?_⟩
+  intro hle
+  have hp : (0 : Int) < (2 : Int) ^ (ms + d * 3) := Int.pow_pos (by decide)
+  unfold Coord.reg2bins Coord.csiClampBeg Coord.csiClampEnd
+  simp only
+  rw [if_pos]
+  split <;> split <;> omega
+
 /-- an empty answer (also the answer for an unknown reference) implies that no added placed record
 overlaps the query -/
 theorem csi_empty_means_no_overlap (ms d : Nat) (hd : d ≤ 10) (hgeom : ms + 3 * d ≤ 62) (recs : List CRec)
@@ -361,6 +479,40 @@ theorem tabix_chunks_complete (hdr : Header) (recs : List TRec) (h : SortedInput
     unfold Tabix.chunks Tabix.mergeChunks
     simp only [hname, hidx, hcast, h1']
 
+/-- `tabix_chunks_complete` without the bound on the query's end -/
+theorem tabix_chunks_complete_any_end (hdr : Header) (recs : List TRec) (h : SortedInput (tbxTrace hdr recs))
+    (k : Nat) (r : TRec) (hk : recs[k]? = some r) (hp : r.placed = true) (hne : r.start < r.stop)
+    (beg stop : Int) (hb : 0 ≤ beg) (hq : beg < stop)
+    (hov1 : r.start < stop) (hov2 : beg < r.stop)
+    (pre : List Chunk → List Chunk) (hpre : EncLaw pre) :
+    (∃ cs, Tabix.chunks Coord.overlappingBinsFor Local.adjacent (tbxBuilt hdr recs) r.name beg stop = .ok cs ∧
+        coveredBy cs r.chunk) ∧
+    (∃ cs, Tabix.chunks Coord.overlappingBinsFor Local.adjacent (Tabix.mergeChunks pre (tbxBuilt hdr recs))
+        r.name beg stop = .ok cs ∧ coveredBy cs r.chunk) := by
+  obtain ⟨x, hx, hxs, hxe, hxc, hxp, _, hxb⟩ := Tabix.trace_get Coord.binFor recs (tbxNew hdr) k r hk
+  have hxmem : x ∈ tbxTrace hdr recs := List.mem_of_getElem? hx
+  have hpx : x.placed = true := by rw [hxp]; exact hp
+  have hname : Tabix.mapGet (tbxBuilt hdr recs).nameMap r.name = some x.rid.toNat :=
+    (Tabix.names_final Coord.binFor recs (tbxNew hdr) [] idxInv_empty (by intro a ha; cases ha)
+      h.ok h.sorted (by intro a ha; cases ha)).2 k r x hk hx hp
+  have hidx : (tbxBuilt hdr recs).idx = built (tbxTrace hdr recs) :=
+    (Tabix.addAll_idx Coord.binFor recs (tbxNew hdr)).1
+  have hokx := h.ok x hxmem
+  have hrid := hokx.rid hpx
+  have hnex : x.start < x.stop := by rw [hxs, hxe]; exact hne
+  have hbin := bai_bin_law_any_end x hokx hpx hnex (by rw [hxb, hxs, hxe]) beg stop hb hq (by omega) (by omega)
+  obtain ⟨⟨cs, h1, h2⟩, ⟨cs', h1', h2'⟩⟩ := chunks_complete (tbxTrace hdr recs) h x hxmem hpx hnex beg stop
+    (Coord.overlappingBinsFor beg stop) hb hq (by omega) hbin pre Local.adjacent hpre Local.encLaw_adjacent
+  have hcast : ((x.rid.toNat : Nat) : Int) = x.rid := by omega
+  constructor
+  · refine ⟨Local.adjacent cs, ?_, by rw [← hxc]; exact h2⟩
+    unfold Tabix.chunks
+    rw [hname]
+    simp only [hidx, hcast, h1]
+  · refine ⟨Local.adjacent cs', ?_, by rw [← hxc]; exact h2'⟩
+    unfold Tabix.chunks Tabix.mergeChunks
+    simp only [hname, hidx, hcast, h1']
+
 /-- an error or an empty answer for a name implies that no placed record of that name overlaps -/
 theorem tabix_error_or_empty_means_no_overlap (hdr : Header) (recs : List TRec)
     (h : SortedInput (tbxTrace hdr recs)) (name : Name) (beg stop : Int) (hb : 0 ≤ beg) (hq : beg < stop)
@@ -400,6 +552,12 @@ example : ∃ cs, Bai.chunks Coord.overlappingBinsFor Local.adjacent (baiBuilt e
     (by decide) 16400 16450 (by decide) (by decide) (by decide) (by decide) (by decide) id Local.adjacent encLaw_id
     adjacent_encloses).1
 example : EncLaw (Local.compressor (-1)) := compressor_encloses (-1)
+/-- `bai_chunks_complete_any_end` applied: the query "from 16400 to the largest int" finds the record -/
+example : ∃ cs, Bai.chunks Coord.overlappingBinsFor Local.adjacent (baiBuilt exBai) 0 16400 9223372036854775807 = .ok cs ∧
+    coveredBy cs ⟨150, 200⟩ :=
+  (bai_chunks_complete_any_end exBai (by decide) ⟨true, 0, 16000, 16500, false, false, ⟨150, 200⟩⟩ (by decide) (by decide)
+    (by decide) 16400 9223372036854775807 (by decide) (by decide) (by decide) (by decide) id Local.adjacent encLaw_id
+    adjacent_encloses).1
 
 /-- a tabix input: two names, an unplaced line naming a third one in between -/
 def exTbx : List Tabix.TRec :=
@@ -422,5 +580,11 @@ example : Csi.CSortedInput 4 2 exCsi := by decide
 example : coveredBy (Csi.chunks Coord.reg2bins Local.adjacent (csiBuilt 4 2 exCsi) 0 2 3) ⟨2309, 524288⟩ :=
   (csi_chunks_complete 4 2 (by decide) (by decide) exCsi (by decide) ⟨0, 0, 17, ⟨2309, 524288⟩, true, true⟩ (by decide)
     (by decide) 2 3 (by decide) (by decide) (by decide) (by decide) (by decide) id encLaw_id).1
+
+/-- `csi_chunks_complete_any_query` applied: a query from -7 to the largest int64 finds the record -/
+example : coveredBy (Csi.chunks Coord.reg2bins Local.adjacent (csiBuilt 4 2 exCsi) 0 (-7) 9223372036854775807) ⟨2309, 524288⟩ :=
+  (csi_chunks_complete_any_query 4 2 (by decide) (by decide) exCsi (by decide) ⟨0, 0, 17, ⟨2309, 524288⟩, true, true⟩ (by decide)
+    (by decide) (-7) 9223372036854775807 (by decide) (by decide) (by decide) id encLaw_id).1
+example : Coord.reg2bins 0 0 4 2 = [] ∧ Coord.reg2binsGo 0 0 4 2 = some [] := (csi_chunks_query_returns 4 2 (by decide) (by decide) 0 0).symm.imp (· (by decide)) (by intro h; rw [h]; congr 1)
 
 end Hts.Props.C04
